@@ -145,3 +145,14 @@ pub fn l1(s: &str) -> String {
         s.to_string()
     }
 }
+
+/// C08 canonicalisation: a value, an absence failure (Binding / Attribute), or any other failure.
+pub fn l2_absent(s: &str) -> String {
+    if s == "e:binding" || s == "e:attribute" {
+        "E:absent".to_string()
+    } else if s.starts_with("e:") {
+        "E:other".to_string()
+    } else {
+        s.to_string()
+    }
+}
